@@ -172,6 +172,11 @@ theorem no_racy_statics_partial :
 
 theorem benign_statics : benignKeys = knownBenign := by decide
 
+/-- The `done` flags of the idempotently initialised tables (`dos_initialised`, `crc_tbl_inited`) are
+stored after the last store to the objects they guard — the C has the fill-then-flag shape that
+`fillThenFlag_safe` is about, not the flag-first shape of `flagFirst_race`. -/
+theorem idempotent_init_flag_last : flagsStoredLast = true := by decide
+
 example : ("archive_time.c", "dos_max_unix") ∈ builtKeys ∧ classOf ("archive_time.c", "dos_max_unix") = some .idempotentInit := by
   decide
 
